@@ -7,7 +7,6 @@ import (
 
 	"github.com/form3tech-oss/f1/v2/internal/options"
 	"github.com/form3tech-oss/f1/v2/internal/trigger/api"
-	"github.com/form3tech-oss/f1/v2/internal/trigger/users"
 	"github.com/form3tech-oss/f1/v2/internal/ui"
 	"github.com/form3tech-oss/f1/v2/internal/workers"
 )
@@ -39,18 +38,28 @@ func runStage(
 	stageCtx, stageCancel := context.WithTimeout(ctx, stage.StageDuration-safeDurationBeforeNextStage)
 	defer stageCancel()
 
+	if stage.UsersConcurrency > 0 {
+		// The users are started here and now, so that they are known to the pool manager before anything else
+		// happens. When the stage is over they finish their current iteration before the next stage starts;
+		// when the run itself is over (ctx) the run waits for them, for at most its completion timeout.
+		pool := workers.NewContinuousPool(stage.UsersConcurrency)
+		pool.Start(stageCtx)
+		select {
+		case <-ctx.Done():
+			return
+		case <-workers.WaitForCompletion():
+			time.Sleep(safeDurationBeforeNextStage)
+		}
+		return
+	}
+
 	stageDone := make(chan struct{})
 
 	go func() {
 		defer close(stageDone)
 
-		if stage.UsersConcurrency == 0 {
-			doWork := api.NewIterationWorker(stage.IterationDuration, stage.Rate)
-			doWork(stageCtx, output, workers, options)
-		} else {
-			doWork := users.NewWorker(stage.UsersConcurrency)
-			doWork(stageCtx, output, workers, options)
-		}
+		doWork := api.NewIterationWorker(stage.IterationDuration, stage.Rate)
+		doWork(stageCtx, output, workers, options)
 	}()
 
 	select {
